@@ -1,0 +1,12 @@
+//go:build verif
+
+package unionstore
+
+import "github.com/tikv/client-go/v2/internal/unionstore/rbt"
+
+// VerifNewRbtDB returns the red-black-tree backed MemBuffer (whose constructor is
+// unexported) together with its tree, for the /verif differential harness.
+func VerifNewRbtDB() (MemBuffer, *rbt.RBT) {
+	db := newRbtDBWithContext()
+	return db, db.RBT
+}
